@@ -158,8 +158,9 @@ func presentFileNotRewritten(ctx *core.Ctx, rule string) {
 		c, ok := v.(*ssa.Call)
 		return ok && c.Call.IsInvoke() && c.Call.Method.Name() == "Size"
 	}
-	stopEdge := func(pb, sb int) bool {
-		for _, f := range g.EdgeFacts(pb, sb) {
+	stopEdge := func(pb, sb int, extra []ssax.Fact) bool {
+		facts := append(g.EdgeFacts(pb, sb), extra...)
+		for _, f := range facts {
 			if f.NilOf != nil {
 				if f.NilOf == serr && !f.IsNil {
 					return true
@@ -170,7 +171,7 @@ func presentFileNotRewritten(ctx *core.Ctx, rule string) {
 				return true // Stat failed: there is no file
 			}
 		}
-		if cmpFact(g.EdgeFacts(pb, sb), token.NEQ, isSizeCall, func(v ssa.Value) bool { return origin(v) == ssa.Value(size) }) {
+		if cmpFact(facts, token.NEQ, isSizeCall, func(v ssa.Value) bool { return origin(v) == ssa.Value(size) }) {
 			return true // a file of another size
 		}
 		return false
